@@ -1,6 +1,6 @@
 (* C20 — text forms round-trip and reject corrupted identifiers. *)
 From Coq Require Import List NArith Bool.
-From Sia Require Import Prim.Tok Policy.Model Text.Hex Text.Currency Text.CurrencyProofs Text.PolicyText Text.PolicyTextProofs.
+From Sia Require Import Prim.Tok Policy.Model Text.Hex Text.Currency Text.CurrencyProofs Text.PolicyText Text.PolicyTextProofs Text.Forms.
 Import ListNotations.
 Local Open Scope nat_scope.
 
@@ -46,3 +46,19 @@ Print Assumptions C20_currency_exact_roundtrip.
 Theorem C20_policy_string_roundtrip : forall p s, render p = Some s -> wfp p -> parse_spend_policy s = TOk p.
 Proof. exact policy_text_roundtrip. Qed.
 Print Assumptions C20_policy_string_roundtrip.
+
+(* public keys ("ed25519:" + hex): the rendering parses back; whatever parses has the prefix and is the rendering of
+   the key returned up to the case of the hex digits *)
+Theorem C20_publickey_roundtrip : forall pk, byte_ok pk -> length pk = 32 -> pk_parse (pk_render pk) = Some pk.
+Proof. exact pk_roundtrip. Qed.
+Print Assumptions C20_publickey_roundtrip.
+
+Theorem C20_publickey_canonical : forall s pk, pk_parse s = Some pk ->
+  map lower (skipn 8 s) = hex_encode pk /\ firstn 8 s = (ed_prefix ++ [colon])%list /\ length pk = 32.
+Proof. exact pk_parse_canonical. Qed.
+Print Assumptions C20_publickey_canonical.
+
+(* chain indices ("<decimal height>::<64 hex digits>") *)
+Theorem C20_chainindex_roundtrip : forall h id, (h < 2 ^ 64)%N -> byte_ok id -> length id = 32 -> ci_parse (ci_render h id) = Some (h, id).
+Proof. exact ci_roundtrip. Qed.
+Print Assumptions C20_chainindex_roundtrip.
